@@ -1034,6 +1034,22 @@ fn t2_dec(out: &mut Out, c: Codec, s: &[char]) {
                     chk(out, matches!(&again, Ok(Ok(w)) if w == v), &format!("{}_roundtrip", p), &case, "re-encode/decode of accepted octets differs");
                 }
             }
+            // every other front end that does the same job must give the same answer on
+            // the same text (well-formed or not): convenience wrappers, the scanner-side
+            // converter, the serde helper
+            if c == B16 {
+                let t = text_of(s);
+                let v = catch(move || base16::decode_vec(&t));
+                let vcase = format!("decv16 {}", cps(s));
+                let obs = match &v { Err(_) => "Panic".to_string(), Ok(Ok(x)) => format!("Ok {}", hex(x)), Ok(Err(e)) => format!("Err {}", kind(e)) };
+                out.case(&vcase, &obs, !s.is_empty(), "decv16");
+                chk(out, matches!(&v, Ok(x) if *x == r), "b16_decode_vec_differs", &vcase, &format!("decode_vec {:?} vs decode {:?}", v, r));
+            }
+            let cv = imp_conv(c, &[s.to_vec()]);
+            chk(out, matches!(&cv, Ok(x) if x.as_ref().ok() == r.as_ref().ok()), &format!("{}_converter_differs_from_decode", p), &case, &format!("converter {:?} vs decode {:?}", cv, r));
+            let j = serde_json::to_string(&text_of(s)).unwrap();
+            let sv = serde_from_json(c, &j);
+            chk(out, matches!(&sv, Ok(x) if x.as_ref().ok() == r.as_ref().ok()), &format!("{}_entry_points_disagree", p), &case, &format!("serde {:?} vs decode {:?}", sv, r));
         }
     }
 }
